@@ -25,6 +25,7 @@ Passes (each is a local rewrite whose two sides are equivalent Python; all run t
 The rewriting keeps the original nodes (and their line numbers) wherever the code is not touched.
 '''
 import ast
+import keyword
 import copy
 import json
 import os
@@ -267,6 +268,8 @@ class _Expr(ast.NodeTransformer):
                 node.comparators = [at(ast.Tuple(elts=r.elts, ctx=ast.Load()), r)]
         return node
 
+    nav_sugar = False      # set by Normalizer.run() when NavChain's sugar methods of the analysed tree are the known ones
+
     def visit_BoolOp(self, node):
         self.generic_visit(node)
         return mk_bool(node.op, node.values, node)
@@ -279,6 +282,40 @@ class _Expr(ast.NodeTransformer):
             return at(ast.IfExp(test=f.test,
                                 body=ast.Call(func=f.body, args=[clone(a) for a in node.args], keywords=[clone(k) for k in node.keywords]),
                                 orelse=ast.Call(func=f.orelse, args=[clone(a) for a in node.args], keywords=[clone(k) for k in node.keywords])), node)
+        # <navigation chain>.nav('KIND', N[, 'phrase'])  ->  <navigation chain>.KIND[N[, 'phrase']]      (NavChain.__getattr__ / __getitem__
+        # are that sugar: checked on the analysed tree by Normalizer._navchain_sugar before this rewrite is enabled)
+        if _Expr.nav_sugar and isinstance(f, ast.Attribute) and f.attr == 'nav' and not node.keywords and len(node.args) in (2, 3) and \
+                isinstance(node.args[0], ast.Constant) and isinstance(node.args[0].value, str) and node.args[0].value.isidentifier() and \
+                not keyword.iskeyword(node.args[0].value) and node.args[0].value not in ('handle', 'nav', '_nav', '_kind') and \
+                not node.args[0].value.startswith('__') and not any(isinstance(a, ast.Starred) for a in node.args) and _is_nav_chain(f.value):
+            if len(node.args) == 3 and isinstance(node.args[2], ast.Constant) and node.args[2].value == '':
+                node.args = node.args[:2]
+            if not (isinstance(node.args[1], ast.Tuple)):
+                idx = node.args[1] if len(node.args) == 2 else at(ast.Tuple(elts=[node.args[1], node.args[2]], ctx=ast.Load()), node)
+                return at(ast.Subscript(value=ast.Attribute(value=f.value, attr=node.args[0].value, ctx=ast.Load()), slice=idx, ctx=ast.Load()), node)
+        # getattr(X, 'name')  ->  X.name      (a constant identifier; no default)
+        if isinstance(f, ast.Name) and f.id == 'getattr' and len(node.args) == 2 and not node.keywords and \
+                isinstance(node.args[1], ast.Constant) and isinstance(node.args[1].value, str) and node.args[1].value.isidentifier() and \
+                not keyword.iskeyword(node.args[1].value) and not (node.args[1].value.startswith('__') and not node.args[1].value.endswith('__')) and \
+                not isinstance(node.args[0], ast.Starred):
+            return at(ast.Attribute(value=node.args[0], attr=node.args[1].value, ctx=ast.Load()), node)
+        # ET.SubElement(parent, tag, {'name': a, 'type': b}, **extra)  ->  ET.SubElement(parent, tag, name=a, type=b, **extra): the attribute
+        # dictionary is {**attrib, **extra} either way, in this order
+        if _kwdotted(f) in _ET_FACTORIES and len(node.args) == _ET_FACTORIES[_kwdotted(f)] + 1 and isinstance(node.args[-1], ast.Dict) and \
+                all(isinstance(k, ast.Constant) and isinstance(k.value, str) and k.value.isidentifier() and not keyword.iskeyword(k.value)
+                    for k in node.args[-1].keys) and all(k.arg is not None for k in node.keywords):
+            d = node.args[-1]
+            names = [k.value for k in d.keys]
+            reserved = ('parent', 'tag', 'attrib', '_parent', '_tag')
+            if len(set(names)) == len(names) and not (set(names) & {k.arg for k in node.keywords}) and not (set(names) & set(reserved)):
+                node.args = node.args[:-1]
+                node.keywords = [at(ast.keyword(arg=k.value, value=v), v) for k, v in zip(d.keys, d.values)] + node.keywords
+        # keyword arguments with pure values stand in one order (by name) where the callee is known to bind them to named parameters (for a
+        # callee collecting **kwargs the order can be observed)
+        if len(node.keywords) > 1 and all(k.arg is not None for k in node.keywords) and _kwdotted(f) in _KWORDER_FREE and \
+                sum(1 for k in node.keywords if not (is_pure(k.value) and not may_raise(k.value))) <= 1 and \
+                [k.arg for k in node.keywords] != sorted(k.arg for k in node.keywords):
+            node.keywords = sorted(node.keywords, key=lambda k: k.arg)
         # f(*[a, *X])  ->  f(a, *X)        f(*(A + B))  ->  f(*A, *B)
         if any(isinstance(a, ast.Starred) and (isinstance(a.value, (ast.List, ast.Tuple)) or
                                                 (isinstance(a.value, ast.BinOp) and isinstance(a.value.op, ast.Add))) for a in node.args):
@@ -855,6 +892,90 @@ class FunctionNormalizer(object):
                 self._exprs_of_stmt(st, tr)
         self._scalar_percent()
         self._ply_slices()
+        self._super_calls()
+
+    def _super_calls(self):
+        '''super(C, self).m(args) / super().m(args) in a method of class C(B)  ->  B.m(self, args), when the whole analysed program
+        uses single inheritance below C (then the class after C in every instance's MRO is B)'''
+        fn, owner = self.fn, self.owner
+        q = getattr(fn, '_qual', None)
+        mods = getattr(owner, 'program', None)
+        if not q or not mods or not any(isinstance(n, ast.Name) and n.id == 'super' for n in ast.walk(fn)):
+            return
+        modname, _, rest = q.partition(':')
+        if '.' not in rest or modname not in mods or not fn.args.args:
+            return
+        if any(isinstance(d, ast.Name) and d.id in ('staticmethod', 'classmethod') for d in fn.decorator_list):
+            return
+        cname = rest.split('.')[0]
+        mine = [n for n in mods[modname].tree.body if isinstance(n, ast.ClassDef) and n.name == cname]
+        if len(mine) != 1 or len(mine[0].bases) != 1 or mine[0].keywords or not is_pure(mine[0].bases[0]) or not isinstance(mine[0].bases[0], (ast.Name, ast.Attribute)):
+            return
+        base = mine[0].bases[0]
+        # no class of the program reaches C through multiple inheritance
+        classes = {}
+        for m in mods.values():
+            for n in ast.walk(m.tree):
+                if isinstance(n, ast.ClassDef):
+                    classes.setdefault(n.name, []).append(n)
+
+        def reaches(c, seen):
+            if c.name == cname:
+                return True
+            if c.name in seen:
+                return False
+            seen.add(c.name)
+            for b in c.bases:
+                bn = b.id if isinstance(b, ast.Name) else (b.attr if isinstance(b, ast.Attribute) else None)
+                if bn is None:
+                    return True       # unknown base expression: assume the worst
+                for c2 in classes.get(bn, []):
+                    if reaches(c2, seen):
+                        return True
+            return False
+        for lst in classes.values():
+            for c in lst:
+                if len(c.bases) > 1 and reaches(c, set()):
+                    return
+        S = fn.args.args[0].arg
+        if any(isinstance(n, ast.Name) and n.id == S and isinstance(n.ctx, (ast.Store, ast.Del)) for n in ast.walk(fn)):
+            return
+        nested = set()
+        for sub in ast.walk(fn):
+            if sub is not fn and isinstance(sub, (ast.FunctionDef, ast.AsyncFunctionDef, ast.Lambda, ast.ClassDef)):
+                nested.update(id(x) for x in ast.walk(sub))
+
+        class R(ast.NodeTransformer):
+            def visit_Call(s2, node):
+                s2.generic_visit(node)
+                f = node.func
+                if id(node) in nested or not (isinstance(f, ast.Attribute) and isinstance(f.value, ast.Call) and
+                                              isinstance(f.value.func, ast.Name) and f.value.func.id == 'super' and not f.value.keywords):
+                    return node
+                a = f.value.args
+                if not (len(a) == 0 or (len(a) == 2 and isinstance(a[0], ast.Name) and a[0].id == cname and isinstance(a[1], ast.Name) and a[1].id == S)):
+                    return node
+                return at(ast.Call(func=ast.Attribute(value=clone(base), attr=f.attr, ctx=ast.Load()),
+                                   args=[ast.Name(id=S, ctx=ast.Load())] + node.args, keywords=node.keywords), node)
+        fn.body = [R().visit(x) for x in fn.body]
+
+    def _only_plainly_stored(self, n, occ):
+        '''every occurrence of the local n is the single target of a plain assignment: the name is never read, deleted or captured'''
+        if not all(isinstance(x.ctx, ast.Store) for x in occ):
+            return False
+        tgts = {id(s.targets[0]) for s in ast.walk(self.fn) if isinstance(s, ast.Assign) and len(s.targets) == 1 and isinstance(s.targets[0], ast.Name)}
+        if not all(id(x) in tgts for x in occ):
+            return False
+        for sub in ast.walk(self.fn):
+            if isinstance(sub, (ast.Global, ast.Nonlocal)) and n in sub.names:
+                return False
+        return not any(isinstance(c, ast.Call) and isinstance(c.func, ast.Name) and c.func.id in ('locals', 'vars', 'eval', 'exec') for c in ast.walk(self.fn))
+
+    def _ply_item(self, e):
+        '''e is p[k] with k inside the single production of this grammar action: reading it cannot fail'''
+        P, n = getattr(self, '_ply', (None, 0))
+        return P is not None and isinstance(e, ast.Subscript) and isinstance(e.value, ast.Name) and e.value.id == P and \
+            isinstance(e.slice, ast.Constant) and type(e.slice.value) is int and 0 <= e.slice.value < n
 
     def _ply_slices(self):
         '''in a grammar action p_x(self, p) with ONE production in its docstring len(p) is known: p[a:b], p[a:], p[a::k] are the
@@ -875,6 +996,7 @@ class FunctionNormalizer(object):
         P = fn.args.args[1].arg
         if any(isinstance(x, ast.Name) and x.id == P and isinstance(x.ctx, ast.Store) for x in ast.walk(fn)):
             return
+        self._ply = (P, n)
 
         class R(ast.NodeTransformer):
             def visit_Call(s2, node):
@@ -1743,7 +1865,7 @@ class FunctionNormalizer(object):
         and the usual builtins; None when the class is not known'''
         classes = {}
         owner = getattr(self, 'owner', None)
-        mods = getattr(owner, 'modules', None) or {}
+        mods = getattr(owner, 'program', None) or {}
         for m in mods.values():
             for n in ast.walk(m.tree):
                 if isinstance(n, ast.ClassDef):
@@ -1860,6 +1982,28 @@ class FunctionNormalizer(object):
                     lst[i] = at(ast.Assign(targets=[ast.Name(id=nm, ctx=ast.Store())],
                                            value=ast.IfExp(test=st.test, body=st.body[0].value, orelse=st.orelse[0].value)), st)
                     continue
+                # if c: a, b = E  else: a = x; b = y   ->   a, b = E if c else (x, y)      (locals; x, y do not read a / b)
+                if isinstance(st, ast.If) and st.body and st.orelse:
+                    done = False
+                    for tup_side, seq_side, flip in ((st.body, st.orelse, False), (st.orelse, st.body, True)):
+                        if len(tup_side) == 1 and isinstance(tup_side[0], ast.Assign) and len(tup_side[0].targets) == 1 and \
+                                isinstance(tup_side[0].targets[0], ast.Tuple) and \
+                                all(isinstance(t, ast.Name) and self._is_local(t.id) for t in tup_side[0].targets[0].elts) and \
+                                len(seq_side) == len(tup_side[0].targets[0].elts) >= 2 and \
+                                all(isinstance(x, ast.Assign) and len(x.targets) == 1 and isinstance(x.targets[0], ast.Name) for x in seq_side):
+                            tn = [t.id for t in tup_side[0].targets[0].elts]
+                            if len(set(tn)) != len(tn) or [x.targets[0].id for x in seq_side] != tn:
+                                continue
+                            if any(names_loaded(x.value) & set(tn) for x in seq_side) or \
+                                    any(isinstance(n, (ast.Yield, ast.YieldFrom, ast.Await, ast.NamedExpr)) for x in list(seq_side) + list(tup_side) for n in ast.walk(x)):
+                                continue
+                            tupv = at(ast.Tuple(elts=[x.value for x in seq_side], ctx=ast.Load()), seq_side[0])
+                            a_, b_ = (tupv, tup_side[0].value) if flip else (tup_side[0].value, tupv)
+                            lst[i] = at(ast.Assign(targets=[tup_side[0].targets[0]], value=ast.IfExp(test=st.test, body=a_, orelse=b_)), st)
+                            done = True
+                            break
+                    if done:
+                        continue
                 # if N is None: S(None)  else: S(N)   ->   S(N)      (the guarded branch is the general one with the tested value filled in)
                 if isinstance(st, ast.If) and isinstance(st.test, ast.Compare) and len(st.test.ops) == 1 and isinstance(st.test.ops[0], ast.Is) and \
                         isinstance(st.test.left, ast.Name) and isinstance(st.test.comparators[0], ast.Constant) and st.test.comparators[0].value is None:
@@ -2030,8 +2174,8 @@ class FunctionNormalizer(object):
                 if isinstance(st, ast.Assign) and len(st.targets) == 1 and isinstance(st.targets[0], ast.Name) and self._is_local(st.targets[0].id):
                     n = st.targets[0].id
                     occ = self._all_names(n)
-                    if len(occ) == 1 and n != '_' or (len(occ) == 1 and n == '_'):
-                        if is_pure(st.value) and not may_raise(st.value):
+                    if len(occ) == 1 or self._only_plainly_stored(n, occ):
+                        if is_pure(st.value) and (not may_raise(st.value) or self._ply_item(st.value)):
                             del lst[i]
                             if not lst:
                                 lst.append(at(ast.Pass(), st))
@@ -3276,12 +3420,65 @@ def eliminate_returns(body, target, where):
     return T(body, fall)
 
 
+# external callables whose keyword arguments are all named parameters (ply.lex.lex, ply.yacc.yacc)
+_KWORDER_FREE = {'lex.lex', 'yacc.yacc', 'ply.lex.lex', 'ply.yacc.yacc'}
+# xml.etree.ElementTree factories: number of positional parameters before `attrib`
+_ET_FACTORIES = {'ET.SubElement': 2, 'ET.Element': 1, 'ElementTree.SubElement': 2, 'ElementTree.Element': 1}
+
+
+def _kwdotted(f):
+    parts = []
+    while isinstance(f, ast.Attribute):
+        parts.append(f.attr)
+        f = f.value
+    if isinstance(f, ast.Name):
+        parts.append(f.id)
+        return '.'.join(reversed(parts))
+    return None
+
+
+def _is_nav_chain(e):
+    '''e is syntactically a navigation chain: nav_one / nav_any / nav_many / one / any / many (x) followed by .KIND[..] / .nav(..) steps'''
+    hops = 0
+    while hops < 40:
+        hops += 1
+        if isinstance(e, ast.Subscript) and isinstance(e.value, ast.Attribute):
+            e = e.value.value
+        elif isinstance(e, ast.Call) and isinstance(e.func, ast.Attribute) and e.func.attr == 'nav':
+            e = e.func.value
+        elif isinstance(e, ast.Call) and len(e.args) == 1 and not e.keywords:
+            f = e.func
+            nm = f.id if isinstance(f, ast.Name) else (f.attr if isinstance(f, ast.Attribute) and isinstance(f.value, ast.Name) and f.value.id == 'xtuml' else None)
+            return nm in ('nav_one', 'nav_any', 'nav_many', 'navigate_one', 'navigate_any', 'navigate_many', 'one', 'any', 'many') and \
+                not (nm == 'any' and isinstance(e.args[0], (ast.GeneratorExp, ast.ListComp)))
+        else:
+            return False
+    return False
+
+
+_NAVCHAIN_SUGAR = '''
+def __getattr__(self, kind):
+    self._kind = kind
+    return self
+
+def __getitem__(self, args):
+    if not isinstance(args, tuple):
+        args = (args, '')
+    relid, phrase = args
+    return self.nav(self._kind, relid, phrase)
+'''
+
+
 # ---------------------------------------------------------------------------------------------------------------
 class Normalizer(object):
     '''whole-repo driver: normalises every function, then inlines non-inventory helpers into their callers'''
 
-    def __init__(self, modules, inventory=None, only=None, light=None):
+    def __init__(self, modules, inventory=None, only=None, light=None, context=None):
         self.modules = modules
+        # whole-program facts (class hierarchy, who stores which attribute) are read from every module of the analysed tree, also
+        # when only one module is being normalised
+        self.program = dict(context or {})
+        self.program.update(modules)
         self.light = light        # None, or qualified name -> names of the reference spelling (light mode, see run_light)
         self.only = only          # None: every function; else the set of qualified names to bring into normal form
         if inventory is None:
@@ -3336,12 +3533,92 @@ class Normalizer(object):
                     cands[nm] = st.value
         return {k: v for k, v in cands.items() if count.get(k) == 1}
 
+    def _private_class_constants(self):
+        '''(module, class) -> {name: tuple literal} for private class attributes bound exactly once in the whole analysed program (in
+        that class body, to an immutable tuple) and never stored, deleted or named by a string anywhere: read through the first
+        parameter of a method of that class they are that literal.  Classes with attribute hooks are left alone.'''
+        def immutable(e):
+            if isinstance(e, ast.Constant):
+                return True
+            if isinstance(e, ast.Tuple):
+                return all(immutable(x) for x in e.elts)
+            return False
+        bound, spoiled = {}, set()
+        for name, mod in self.program.items():
+            for n in ast.walk(mod.tree):
+                if isinstance(n, ast.Attribute) and isinstance(n.ctx, (ast.Store, ast.Del)):
+                    spoiled.add(n.attr)
+                elif isinstance(n, ast.Constant) and isinstance(n.value, str):
+                    spoiled.add(n.value)
+                elif isinstance(n, ast.ClassDef):
+                    hooks = any(isinstance(m, ast.FunctionDef) and m.name in ('__getattr__', '__getattribute__', '__setattr__', '__delattr__') for m in n.body)
+                    for st in n.body:
+                        tg = []
+                        if isinstance(st, ast.Assign):
+                            tg = [x.id for t in st.targets for x in ast.walk(t) if isinstance(x, ast.Name)]
+                        elif isinstance(st, (ast.AugAssign, ast.AnnAssign)) and isinstance(st.target, ast.Name):
+                            tg = [st.target.id]
+                        for nm in tg:
+                            ok = isinstance(st, ast.Assign) and len(st.targets) == 1 and isinstance(st.targets[0], ast.Name) and \
+                                isinstance(st.value, ast.Tuple) and immutable(st.value) and nm.startswith('_') and not nm.startswith('__') and \
+                                not hooks and not n.keywords and not n.decorator_list
+                            bound.setdefault(nm, []).append((name, n.name, st.value if ok else None))
+        out = {}
+        for nm, lst in bound.items():
+            if len(lst) == 1 and lst[0][2] is not None and nm not in spoiled:
+                out.setdefault((lst[0][0], lst[0][1]), {})[nm] = lst[0][2]
+        return out
+
+    def _navchain_sugar(self):
+        '''NavChain.__getattr__ / __getitem__ of the analysed tree are (up to normal form) `chain.K` = remember K and `chain[r, p]` =
+        chain.nav(K, r, p); the classes deriving from NavChain do not override them'''
+        mod = self.program.get('xtuml.meta')
+        if mod is None:
+            return False
+        want = {}
+        for n in ast.parse(_NAVCHAIN_SUGAR).body:
+            want[n.name] = dump(FunctionNormalizer(n).run().body)
+        classes = [n for n in ast.walk(mod.tree) if isinstance(n, ast.ClassDef)]
+        nc = [c for c in classes if c.name == 'NavChain']
+        if len(nc) != 1:
+            return False
+        for c in classes:
+            if c is not nc[0] and any(isinstance(m, ast.FunctionDef) and m.name in ('__getattr__', '__getitem__', '__getattribute__', 'nav') for m in c.body) and \
+                    any(isinstance(b, ast.Name) and b.id in ('NavChain', 'NavOneChain', 'NavManyChain') for b in c.bases):
+                return False
+        for name, w in want.items():
+            ms = [m for m in nc[0].body if isinstance(m, ast.FunctionDef) and m.name == name]
+            if len(ms) != 1 or ms[0].decorator_list:
+                return False
+            m2 = clone(ms[0])
+            m2.body = [x for x in m2.body if not (isinstance(x, ast.Expr) and isinstance(x.value, ast.Constant) and isinstance(x.value.value, str))] or m2.body
+            try:
+                if dump(FunctionNormalizer(m2).run().body) != w:
+                    return False
+            except Exception:
+                return False
+        return True
+
     def run(self):
+        _Expr.nav_sugar = self._navchain_sugar()
+        cconsts = self._private_class_constants()
         for name, mod in self.modules.items():
             sigs = self._signatures(mod.tree)
             consts = self._private_constants(mod.tree)
             for q, fn, cls in self.functions(mod.tree, name):
                 if self.wanted(q):
+                    cc = cconsts.get((name, cls.name)) if cls is not None else None
+                    if cc and fn.args.args and (self.light is None or q not in self.light) and \
+                            not any(isinstance(d, ast.Name) and d.id == 'staticmethod' for d in fn.decorator_list):
+                        S = fn.args.args[0].arg
+                        if not any(isinstance(x, ast.Name) and x.id == S and isinstance(x.ctx, (ast.Store, ast.Del)) for x in ast.walk(fn)):
+                            class _CC(ast.NodeTransformer):
+                                def visit_Attribute(s2, node):
+                                    s2.generic_visit(node)
+                                    if isinstance(node.ctx, ast.Load) and isinstance(node.value, ast.Name) and node.value.id == S and node.attr in cc:
+                                        return at(clone(cc[node.attr]), node)
+                                    return node
+                            fn.body = [_CC().visit(x) for x in fn.body]
                     if consts and (self.light is None or q not in self.light):
                         local = names_stored(fn) | {x.arg for x in ast.walk(fn.args) if isinstance(x, ast.arg)}
                         use = {k: v for k, v in consts.items() if k not in local}
